@@ -12,7 +12,9 @@ package main
 
 import (
 	"bytes"
+	"encoding/binary"
 	"encoding/hex"
+	"flag"
 	"fmt"
 	"os"
 	"os/signal"
@@ -23,6 +25,7 @@ import (
 	"strings"
 	"syscall"
 	"time"
+	"unsafe"
 
 	"github.com/Ptt-official-app/go-pttbbs/bbs"
 	"github.com/Ptt-official-app/go-pttbbs/cache"
@@ -298,6 +301,18 @@ func numPosts(id []byte) int {
 	return int(u.NumPosts)
 }
 
+// setNumPosts patches the NumPosts field of record uid in .PASSWDS directly (no code under test involved).
+func setNumPosts(uid, n int) {
+	f, err := os.OpenFile(ptttype.FN_PASSWD, os.O_RDWR, 0o600)
+	if err != nil {
+		return
+	}
+	defer f.Close()
+	var b [4]byte
+	binary.LittleEndian.PutUint32(b[:], uint32(n))
+	_, _ = f.WriteAt(b[:], int64(uid-1)*int64(ptttype.USEREC_RAW_SZ)+int64(unsafe.Offsetof(ptttype.USEREC_RAW.NumPosts)))
+}
+
 func nickOf(id []byte) []byte {
 	uid := &ptttype.UserID_t{}
 	copy(uid[:], id)
@@ -420,7 +435,11 @@ func doReset(ws []string) (string, string) {
 			if _, dup := uts[string(a)]; dup || !ok2 || !ok3 || !ok4 || len(a) != ptttype.IDLEN+1 {
 				return "bad-op", "bad-op"
 			}
+			np, _ := natTok(p[4])
 			uts[string(a)] = userTok{uid, nick}
+			if u := users[string(types.CstrToBytes(a))]; u != nil && u.uid == uid {
+				setNumPosts(uid, np) // the line is authoritative (a replayed history starts from the counts it names)
+			}
 		default:
 			return "bad-op", "bad-op"
 		}
@@ -767,6 +786,8 @@ func sortedNames(m map[string][]byte) []string {
 	sort.Strings(ks)
 	return ks
 }
+
+var stream = flag.String("stream", "all", "posts | text | all: which generated stream to run")
 
 func main() {
 	run = hx.Start("C09")
